@@ -124,6 +124,13 @@ def RoundedExceedsIntermediate (c : Cfg) (E : Int) (x : SNum) : Prop :=
   x.exp < E ∧ (E - x.exp).toNat < x.digits ∧
     (roundDiv (rmode c.mode) x.value (2^(E - x.exp).toNat)).natAbs > 2^(x.digits - (E - x.exp).toNat) - 1
 
+instance (E : Int) (x : SNum) : Decidable (NarrowingDropsAllDigits E x) := by
+  unfold NarrowingDropsAllDigits; exact inferInstance
+
+instance (c : Cfg) (E : Int) (x : SNum) : Decidable (RoundedExceedsIntermediate c E x) := by
+  unfold RoundedExceedsIntermediate; exact inferInstance
+
+/-- an input of one of the two open defect classes -/
 def KnownDefect (c : Cfg) (E : Int) (x : SNum) : Prop :=
   NarrowingDropsAllDigits E x ∨ RoundedExceedsIntermediate c E x
 
